@@ -383,12 +383,12 @@ def run(ctx):
             ctx.touch(f)
             n += tagunion.check_function(ctx, f)
     ctx.require('R-TAGUNION member accesses', n, 60)
-    check_replace(ctx, db)
-    check_rename(ctx, db)
-    check_dependencies(ctx, db)
-    check_top_level(ctx, db)
-    check_tag_aggregators(ctx, db)
-    check_deep_copy(ctx, db)
+    ctx.attempt(check_replace, ctx, db)
+    ctx.attempt(check_rename, ctx, db)
+    ctx.attempt(check_dependencies, ctx, db)
+    ctx.attempt(check_top_level, ctx, db)
+    ctx.attempt(check_tag_aggregators, ctx, db)
+    ctx.attempt(check_deep_copy, ctx, db)
     from .. import parallel
     nc = 0
     for f in db.functions:
@@ -399,7 +399,7 @@ def run(ctx):
             nc += k
     ctx.require('R-PARALLEL element cursors', nc, 40)
     from . import C20   # tag queries collect into Set<Tag>, remapping goes through TagMap: the table obligations are C20's, shared
-    C20.check_tables(ctx, db)
+    ctx.attempt(C20.check_tables, ctx, db)
     # copies made by Library::copy_from / Cell::copy_from go through the element copy_from methods: none of them may read a field
     # of the destination before writing it (e.g. the destination's own reference tag)
     from .. import copyrule
